@@ -241,6 +241,71 @@ def _wrap_svds(orig, provider):
     return svds
 
 
+class LinalgFaults:
+    """Cooperative fault point on the dense LAPACK-backed routines (numpy.linalg / scipy.linalg
+    svd, eigh, lstsq, pinv, inv, sqrtm, ...): the j-th such call made *from skmatter code*
+    during the operation raises LinAlgError ('SVD did not converge' - legal, rare). Calls made
+    by scikit-learn, scipy or the harness itself pass through untouched."""
+
+    def __init__(self, stats):
+        self.stats = stats
+        self.configure(None)
+
+    def configure(self, spec):
+        self.spec = dict(spec or {})
+        self.seen = 0
+        self.sites = []
+
+    def hit(self, name):
+        j = self.spec.get("fail_at")
+        if j is None:
+            return
+        self.seen += 1
+        if self.seen == int(j):
+            self.stats["fired"]["linalg:no_convergence"] += 1
+            self.sites.append(name)
+            raise np.linalg.LinAlgError(f"{name}: did not converge {INJECTED_MARK}")
+
+
+def _from_skmatter(depth=2):
+    try:
+        return sys._getframe(depth).f_globals.get("__name__", "").startswith("skmatter")
+    except ValueError:  # pragma: no cover
+        return False
+
+
+def _wrap_linalg(orig, faults, name):
+    def linalg_call(*a, **kw):
+        if faults.spec and _from_skmatter():
+            faults.hit(name)
+        return orig(*a, **kw)
+
+    linalg_call.__wrapped__ = orig
+    linalg_call.__name__ = getattr(orig, "__name__", name)
+    linalg_call.__doc__ = getattr(orig, "__doc__", None)
+    return linalg_call
+
+
+def _wrap_arpack_attr(orig, provider):
+    """`scipy.sparse.linalg.svds/eigsh` reached by attribute access from skmatter code (the CUR
+    selectors): the no-convergence fault point applies there as well."""
+
+    def arpack_call(*a, **kw):
+        if _from_skmatter():
+            provider.maybe_fail()
+        return orig(*a, **kw)
+
+    arpack_call.__wrapped__ = orig
+    arpack_call.__name__ = getattr(orig, "__name__", "arpack_call")
+    return arpack_call
+
+
+LINALG_TARGETS = {
+    "numpy.linalg": ("svd", "eigh", "lstsq", "pinv", "inv", "eigvals", "eigvalsh", "eig", "solve", "cholesky", "qr"),
+    "scipy.linalg": ("svd", "eigh", "sqrtm", "pinv", "lstsq", "inv", "solve", "orthogonal_procrustes"),
+}
+
+
 # --------------------------------------------------------------------------- joblib
 
 from joblib import parallel_config, register_parallel_backend  # noqa: E402
@@ -673,6 +738,7 @@ class Env:
         self.clock = VirtualClock(self.stats)
         self.arpack = ArpackProvider(self.stats)
         self.tqdm_clock = TqdmClock(self.stats)
+        self.linalg = LinalgFaults(self.stats)
         self.progress = ProgressSeam()
         self._patches = []
         self._installed = False
@@ -710,6 +776,18 @@ class Env:
         svds_w = _wrap_svds(ssl.svds, self.arpack)
         gpb = pb.get_progress_bar
         npb = pb.no_progress_bar
+        # dense LAPACK-backed routines: fault points for calls that come from skmatter code
+        linalg_funcs = {}
+        linalg_attr = []
+        for modname, names in LINALG_TARGETS.items():
+            lm = importlib.import_module(modname)
+            for n in names:
+                orig = getattr(lm, n, None)
+                if orig is None or hasattr(orig, "__wrapped__") and getattr(orig, "__name__", "") == "linalg_call":
+                    continue
+                w = _wrap_linalg(orig, self.linalg, f"{modname}.{n}")
+                linalg_funcs[id(orig)] = w
+                linalg_attr.append((lm, n, orig, w))
         for name, mod in list(sys.modules.items()):
             if not (name == "skmatter" or name.startswith("skmatter.")) or mod is None:
                 continue
@@ -733,9 +811,20 @@ class Env:
                 elif v is npb:
                     new = seam_no_progress_bar
                     self.seams_found["progress"] += 1
+                elif callable(v) and id(v) in linalg_funcs:
+                    new = linalg_funcs[id(v)]
+                    self.seams_found["linalg_by_name"] += 1
                 if new is not None:
                     self._patches.append((mod, g, v))
                     setattr(mod, g, new)
+        for lm, n, orig, w in linalg_attr:
+            self._patches.append((lm, n, orig))
+            setattr(lm, n, w)
+            self.seams_found["linalg_by_attribute"] += 1
+        for n in ("svds", "eigsh"):
+            orig = getattr(ssl, n)
+            self._patches.append((ssl, n, orig))
+            setattr(ssl, n, _wrap_arpack_attr(orig, self.arpack))
         # tqdm's redraw throttle reads `tqdm.std.time`: owned by the simulator as well
         try:
             import tqdm.std as _ts
@@ -766,6 +855,7 @@ class Env:
         spec = spec or {}
         self.clock.configure(spec.get("clock"))
         self.arpack.configure(spec.get("arpack"))
+        self.linalg.configure(spec.get("linalg"))
         rs = spec.get("rng") or {"seed": 12345}
         np.random.seed(rs.get("seed", 12345) & 0x7FFFFFFF)
         random.seed(rs.get("seed", 12345))
